@@ -16,7 +16,7 @@ RULE = ("executable programs over the native gate set with aliases-of-aliases an
 ASSUMPTIONS = ["statement-level queries on busy gates are made through the circuit only",
                "reference used set = syntactic reachability through macros, loops of any count, nested blocks, aliases, lets; busy = all qubits, idle = none"]
 TIERS = {"quick": {"shards": 8, "budget_s": 45}, "thorough": {"shards": 16, "budget_s": 360}}
-REQUIRE = {"gate-set:Ad": 500, "overlap:ref-yes": 100, "overlap:ref-no": 300, "used-circuit-compared": 500, "used-statement-compared": 500,
+REQUIRE = {"macro-bodies-analysed-in-call-site-scope": 300, "gate-set:Ad": 500, "overlap:ref-yes": 100, "overlap:ref-no": 300, "used-circuit-compared": 500, "used-statement-compared": 500,
            "permutations-compared": 100, "merge-decisions-observed": 500, "idle-beside-active": 10}
 
 MERGE_LOG = []
@@ -110,6 +110,25 @@ def judge(case):
         exp_s = ref_used_of_tree(Ps, Ps.root, regname)
         if got != exp_s:
             fails.append(("used-set-differs:statement", {"expected": exp_s, "got": got}))
+        elif type(stmt).__name__ == "GateStatement" and type(stmt.gate_def).__name__ == "Macro":
+            # the statements of the macro body analysed one by one in the scope of THIS call site
+            # (get_used_qubit_indices(stmt, context={parameter: argument})): together they use what the call uses
+            ctxd = dict(stmt.parameters)
+            union = {}
+            ok = True
+            for bs in stmt.gate_def.body.statements:
+                ob = lib.outcome(lib.used_qubits, bs, ctxd)
+                if ob[0] != "ok":
+                    fails.append(("used-qubits-raised-on-macro-body-statement:" + ob[1], {"error": ob[2], "macro": stmt.name}))
+                    ok = False
+                    break
+                for k_, v_ in as_sets(ob[1]).items():
+                    union.setdefault(k_, set()).update(v_)
+            if ok:
+                info["used_ctx"] = info.get("used_ctx", 0) + 1
+                union = {k_: v_ for k_, v_ in union.items() if v_}
+                if union != exp_s:
+                    fails.append(("used-set-differs:macro-body-in-call-site-scope", {"expected": exp_s, "got": union, "macro": stmt.name}))
             break
     # (b) emulator acceptance vs overlap
     try:
@@ -217,6 +236,7 @@ def process(ctx, case, seen):
     rec.count("judged")
     rec.count("used-circuit-compared", info.get("used_circuit", 0))
     rec.count("used-statement-compared", info.get("used_stmt", 0))
+    rec.count("macro-bodies-analysed-in-call-site-scope", info.get("used_ctx", 0))
     rec.count("merge-decisions-observed", info.get("merge", 0))
     rec.count("merge-decisions-disjoint-mode", info.get("merge_disjoint", 0))
     rec.count("merge-rejections-observed", info.get("merge_rejections", 0))
